@@ -1,7 +1,7 @@
 (* C10: composition.  H264Payloader output for a sequence of NAL units, fed in order to one
    H264Packet, yields exactly the units that the hold-back rule delivers, each behind the
-   receiver's prefix (Annex-B start code or AVC length).  Hypothesis of the partial theorem: a
-   held SPS/PPS pair goes out as one STAP-A when it fits the MTU and as two units otherwise. *)
+   receiver's prefix (Annex-B start code or AVC length).  A held SPS/PPS pair goes out as one
+   STAP-A when it fits the MTU and as two units otherwise. *)
 From Coq Require Import ZArith List Lia Bool.
 From Coq Require Import ZifyBool.
 From RTP Require Import Base.Bits Base.Res Base.ListX Base.Bytes Base.Own Base.Tactics
